@@ -18,7 +18,9 @@ impl Rng {
 #[derive(Clone, Debug, PartialEq)]
 struct M { id: Scru128Id, ctx: Scru128Id, topic: String, ttl: TTL, born_short: bool }
 
-const TOPICS: &[&str] = &["", "a", "ab", "abc", "ab\u{1}", "ab\u{7f}", "é", "éa", "t", "t.x", "xs.note", "xs.context.note"];
+// (the last two: 304 bytes each, equal in their first 303 - longer than any fixed-size window an index might keep of a topic)
+const TOPICS: &[&str] = &["", "a", "ab", "abc", "ab\u{1}", "ab\u{7f}", "é", "éa", "t", "t.x", "xs.note", "xs.context.note",
+    "loooooooooooooooooooooooooooooooooooooooooooooooooooooooooooooooooooooooooooooooooooooooooooooooooooooooooooooooooooooooooooooooooooooooooooooooooooooooooooooooooooooooooooooooooooooooooooooooooooooooooooooooooooooooooooooooooooooooooooooooooooooooooooooooooooooooooooooooooooooooooooooooooooooooooong.a", "loooooooooooooooooooooooooooooooooooooooooooooooooooooooooooooooooooooooooooooooooooooooooooooooooooooooooooooooooooooooooooooooooooooooooooooooooooooooooooooooooooooooooooooooooooooooooooooooooooooooooooooooooooooooooooooooooooooooooooooooooooooooooooooooooooooooooooooooooooooooooooooooooooooooooong.b"];
 
 fn env(name: &str, d: usize) -> usize { std::env::var(name).ok().and_then(|s| s.parse().ok()).unwrap_or(d) }
 
@@ -177,6 +179,10 @@ fn one_history(seed: u64, steps: usize) {
                     let got: Vec<Scru128Id> = store.read_sync(Some(&lv[k].id), Some(limit), Some(c)).map(|f| f.id).collect();
                     let want: Vec<Scru128Id> = lv[k + 1..].iter().take(limit).map(|m| m.id).collect();
                     assert_eq!(got, want, "[{}] C01: read_sync(last_id, limit, ctx)", what);
+                    // the streaming read path answers the same question the same way
+                    let opts = xs::store::ReadOptions::builder().last_id(lv[k].id).limit(limit).context_id(c).build();
+                    let got2: Vec<Scru128Id> = rt.block_on(async { let mut rx = store.read(opts).await; let mut v = Vec::new(); while let Some(f) = rx.recv().await { v.push(f.id); } v });
+                    assert_eq!(got2, want, "[{}] C01: read(last_id, limit, ctx) (streaming path)", what);
                 }
                 if !removed.is_empty() {
                     // resuming after a frame that has since been removed: strictly after its id, in its context and overall
